@@ -25,7 +25,11 @@ fn vdp(mu: f64) -> Prob {
 }
 
 fn problems() -> Vec<(Prob, f64)> {
-    vec![(base(Base::Harmonic(2.0)), 3.0), (warp(&base(Base::Logistic(2.0)), Warp::Sin), 3.0), (base(Base::Lin3), 2.0), (vdp(3.0), 4.0), (warp(&base(Base::Rational), Warp::Quad), 1.5)]
+    // (the last one: the oscillator with its state measured in units of 1e-200 - squares of the samples overflow)
+    let mut huge = base(Base::Harmonic(2.0));
+    huge.y0 = huge.y0.iter().map(|v| v * 1e200).collect();
+    huge.name = "harmonic(2) with states of size 1e200".into();
+    vec![(base(Base::Harmonic(2.0)), 3.0), (warp(&base(Base::Logistic(2.0)), Warp::Sin), 3.0), (base(Base::Lin3), 2.0), (vdp(3.0), 4.0), (warp(&base(Base::Rational), Warp::Quad), 1.5), (huge, 3.0)]
 }
 
 // ---------------------------------------------------------------------------------------------
@@ -483,7 +487,9 @@ pub fn run_check(replay: Option<Value>) -> i32 {
         }
         let p = if backward { reflect(p0) } else { p0.clone() };
         let xend = if backward { -*span } else { *span };
-        let mut c0 = Cfg::new(m, 0.0, xend, &p.y0).tol(tol, tol * 1e-2);
+        // (the absolute tolerance in the units of the state)
+        let unit = if p0.name.contains("1e200") { 1e200 } else { 1.0 };
+        let mut c0 = Cfg::new(m, 0.0, xend, &p.y0).tol(tol, tol * 1e-2 * unit);
         c0.user_jac = idx[4] == 0;
         if idx[6] == 1 {
             c0.first_step = Some(xend / 37.0);
